@@ -54,7 +54,7 @@ def required_counters(tier):
         "kind.dataclass": 10,
         "kind.property": 10,
         "hooked_module.runs": 2,
-        "env.then_update_steps": 100, "window.annotations_built_while_disabled": 100, "pytest_frontend.sessions": 9,
+        "env.then_update_steps": 100, "window.annotations_built_while_disabled": 100, "moment.coroutine_called_off_awaited_on": 10, "kind.oldstyle-over-wraps": 50, "pytest_frontend.sessions": 9,
     }
 
 
@@ -150,6 +150,26 @@ def make_callables(checker, mark=None):
                 body(self.x, self.y, "d")
 
         out["dataclass"] = (lambda x, y: (DP(x, y), RES)[1], lambda x, y: (DD(x, y), RES)[1])
+        # a functools.wraps-style decorator BETWEEN jaxtyped and the def (caching, retrying, doubling ...): with
+        # checking off it still runs, exactly as in the plain stack - old double-decorator spelling and typechecker=None
+        import functools
+
+        def noted(fn):
+            @functools.wraps(fn)
+            def w(*a, **k):
+                LOG.append(("noted", len(a), tuple(sorted(k))))
+                return fn(*a, **k)
+
+            return w
+
+        def g(x: Float[N, "a b"], y: Float[N, "b"]) -> Float[N, "a"]:
+            return body(x, y, "g")
+
+        with warnings.catch_warnings():
+            warnings.simplefilter("ignore")
+            out["oldstyle-over-wraps"] = (noted(g), jaxtyped(checker(noted(g))))
+            out["none-over-wraps"] = (noted(g), jaxtyped(typechecker=None)(noted(g)))
+            out["newstyle-over-wraps"] = (noted(g), deco(noted(g)))
     return out
 
 
@@ -219,6 +239,16 @@ def compare_disabled(rec, label, kinds, case_base):
                 run = (lambda c: outcome(c, x, y)) if where == "top" else (lambda c: real.in_block_context(lambda: (isinstance(A(9), __import__("jaxtyping").Shaped[N, "outer"]), outcome(c, x, y))[1]))
                 o1, l1 = run(plain)
                 o2, l2 = run(decorated)
+                if kind in ("oldstyle-over-wraps", "none-over-wraps"):
+                    # the old double-decorator spelling and typechecker=None keep their context (and the old spelling
+                    # its typechecker) when checking is off - whether that is 'like plain code' is a matter of reading
+                    # (open corner, as in the design); what is judged here: on well-typed input the layers BETWEEN
+                    # jaxtyped and the def run exactly as in the plain stack, and the result is the same
+                    rec.open_corner("oldstyle-and-None-wrappers-keep-their-context-when-disabled")
+                    if iname not in ("well", "body_raises"):
+                        continue
+                    l1 = [e for e in l1 if e[0] == "noted"]
+                    l2 = [e for e in l2 if e[0] == "noted"]
                 rec.case((label, kind, iname, where), nontrivial=iname != "well")
                 rec.count("disabled.calls." + ("well_typed" if iname in ("well", "body_raises") else "ill_typed"))
                 rec.count("kind." + kind)
@@ -233,6 +263,8 @@ def compare_disabled(rec, label, kinds, case_base):
 
 def check_enabled_rejects(rec, label, kinds, case_base):
     for kind, (plain, decorated) in kinds.items():
+        if kind in ("oldstyle-over-wraps", "none-over-wraps"):
+            continue  # (no typechecker / the typechecker's own TypeError: outside "raises TypeCheckError")
         for iname in ("ill_param", "ill_dtype", "not_array") if kind != "property" else ("ill_return",):
             x, y = INPUTS[iname]()
             o2, l2 = outcome(decorated, x, y)
@@ -423,6 +455,45 @@ def arm_config_update(rec, rng):
             return None
 
         outer(A(4))
+        # (3a) a decorated coroutine function: the switch is read when it is CALLED (as for any function), not when
+        # the coroutine is awaited later
+        nsA = {"Float": Float, "N": N, "RES": RES}
+        real.exec_src("async def co(x: Float[N, 'a b'], y: Float[N, 'b']):\n    return RES\n", nsA)
+        co_plain, co_deco = nsA["co"], jaxtyped(typechecker=checker)(nsA["co"])
+
+        def drive(c):
+            try:
+                c.send(None)
+            except StopIteration as e:
+                return ("ret", e.value is RES)
+            except Exception as e:  # noqa
+                return ("exc", type(e).__name__)
+            finally:
+                c.close()
+            return ("suspended",)
+
+        xi, yi = INPUTS["ill_param"]()
+        config.update("jaxtyping_disable", True)
+        try:
+            c_off = co_deco(xi, yi)
+            bad_arity = None
+            try:
+                co_deco(xi)
+            except TypeError:
+                bad_arity = "TypeError-at-call"
+            except Exception as e:  # noqa
+                bad_arity = type(e).__name__
+        finally:
+            config.update("jaxtyping_disable", False)
+        r_off = drive(c_off)
+        rec.count("moment.coroutine_called_off_awaited_on")
+        if r_off != drive(co_plain(xi, yi)) or bad_arity != "TypeError-at-call":
+            rec.violation("disabled-differs", dict(base, kind="coroutine function"), f"decorated coroutine function CALLED while checking was off and awaited after it was switched on again: {r_off} (plain: ('ret', True)); wrong-arity call while off: {bad_arity}", mechanism="update-disabled-coroutine-differs")
+        try:
+            drive(co_deco(xi, yi))
+            r_on = "no error"
+        except Exception as e:  # noqa
+            r_on = type(e).__name__
         # (3b) typing.no_type_check applied to the wrapper AFTER it has already been called (checked) once
         kinds = make_callables(checker)
         fplain, fdeco = kinds["function"]
